@@ -155,6 +155,11 @@ func (dcw *DeferredCarWriter) writer() (carstorage.WritableCar, error) {
 		}
 		w, err := carstorage.NewWritable(outStream, dcw.roots, dcw.opts...)
 		if err != nil {
+			if dcw.outStream != nil {
+				// The CAR header may be partly written and a stream cannot be rewound:
+				// starting over on the next call would corrupt the output.
+				dcw.closed = true
+			}
 			return nil, err
 		}
 		dcw.w = w
